@@ -495,6 +495,9 @@ func Main(ck *Check, tier string) int {
 			total.Samples = append(total.Samples, r.r.Samples...)
 		}
 	}
+	if total.Samples == nil {
+		total.Samples = []interface{}{}
+	}
 
 	// ---- decide ---------------------------------------------------------------
 	known := loadKnown()
